@@ -313,8 +313,11 @@ func countOthers(in *kit.Instance, n int) int { return n }
 // lock, parked at a yield point between the lines of the event) while the old stream's peer goes away and a new
 // stream registers; the old handler therefore sits between "my stream is over" and its clean-up until the
 // writer is released — after the successor has registered.
-func scenarioWriterInside(r *vh.Run, in *kit.Instance, point string) {
+func scenarioWriterInside(r *vh.Run, in *kit.Instance, point string, queued int, queuedKind string) {
 	name := "writer-inside-old@" + point
+	if queued > 0 {
+		name = fmt.Sprintf("writer-inside-old@%s+%d-%s-queued-behind", point, queued, queuedKind)
+	}
 	ctl := sched.New(8*time.Second, r.Seed)
 	ctl.Install()
 	defer sched.Uninstall()
@@ -336,6 +339,30 @@ func scenarioWriterInside(r *vh.Run, in *kit.Instance, point string) {
 	a.s.Close() // the old stream's peer goes away while a writer is inside an event
 	ctl.AwaitHits("get.E", eBefore+1, 5*time.Second)
 	time.Sleep(30 * time.Millisecond) // let the old handler run up to the writer's lock
+	// more senders look the OLD stream up now (it is still the registered one) and queue on its write lock behind the
+	// old handler: they hold a stale stream across the reconnect and will find it closed. They were sent before
+	// the new stream existed, so their own outcome is not judged — what they do to the table is.
+	var queuedDone sync.WaitGroup
+	for q := 0; q < queued; q++ {
+		queuedDone.Add(1)
+		go func(q int) {
+			defer queuedDone.Done()
+			defer func() { recover() }()
+			if queuedKind == "request" {
+				rctx, rc := context.WithTimeout(context.Background(), 2*time.Second)
+				defer rc()
+				rq := &mcp.JSONRPCRequest{JSONRPC: "2.0"}
+				rq.ID = int64(880000 + q)
+				rq.Method = "roots/list"
+				in.Server.SendRequest(rctx, e.sid, rq)
+				return
+			}
+			in.Server.SendNotification(e.sid, "notifications/noise", map[string]interface{}{"queued": q})
+		}(q)
+	}
+	if queued > 0 {
+		time.Sleep(30 * time.Millisecond)
+	}
 	// the point stays held for the old stream's writer only: the new stream's own writes must pass
 	bch := make(chan *tracked, 1)
 	go func() {
@@ -361,6 +388,7 @@ func scenarioWriterInside(r *vh.Run, in *kit.Instance, point string) {
 	// release the parked writer: the old handler now finishes its teardown, after the successor registered
 	ctl.Release(point)
 	<-sendDone
+	queuedDone.Wait()
 	a.ended(10 * time.Second)
 	time.Sleep(30 * time.Millisecond)
 	if n := mcp.VerifListeningStreams(in.Server); n < 1 {
@@ -484,8 +512,11 @@ func main() {
 		scenarioHT(r, in)
 		scenarioE(r, in, false)
 		scenarioE(r, in, true)
-		scenarioWriterInside(r, in, "sse.write.afterid")
-		scenarioWriterInside(r, in, "sse.write.beforeterm")
+		scenarioWriterInside(r, in, "sse.write.afterid", 0, "")
+		scenarioWriterInside(r, in, "sse.write.beforeterm", 0, "")
+		scenarioWriterInside(r, in, "sse.write.afterid", 1, "notification")
+		scenarioWriterInside(r, in, "sse.write.beforeterm", 3, "notification")
+		scenarioWriterInside(r, in, "sse.write.afterid", 2, "request")
 	}
 	scenarioSequential(r, in, r.Pick(12, 60))
 	for i := 0; i < r.Pick(6, 60); i++ {
@@ -493,6 +524,6 @@ func main() {
 	}
 	r.Sample(map[string]interface{}{"scenario": "E-cancelled", "schedule": []string{"open A", "hold get.E", "open B (cancels A, stores B)", "old handler parked at E", "send -> must arrive on B", "release E (old handler deletes its registration)", "send -> must still arrive on B"}})
 	r.Sample(map[string]interface{}{"scenario": "H-T", "schedule": []string{"open A", "hold get.H", "open B: headers flushed?", "if B's headers are at the peer while the handler is parked before the table store: send -> must arrive on B", "release"}})
-	r.Finish("one Streamable session, listening streams opened / closed / reopened by a raw peer; schedules enumerated at the instrumented points get.H (new handler before the table store), get.T (after it), get.E (old handler woke, before its table delete): send placed after 'new headers received' in every gap {before store, after store before old delete, after old delete, old stream closed by its peer before/while the new one registers}; sequential reopen chains; free-running reconnect storms with seeded delays at the three points and concurrent senders. Every send made after the new stream's headers were received must succeed and arrive on that stream only. Distinct = (scenario, gap) judged.",
+	r.Finish("one Streamable session, listening streams opened / closed / reopened by a raw peer; schedules enumerated at the instrumented points get.H (new handler before the table store), get.T (after it), get.E (old handler woke, before its table delete): send placed after 'new headers received' in every gap {before store, after store before old delete, after old delete, old stream closed by its peer before/while the new one registers}; a writer parked inside an event on the old stream (holding its write lock) while the old peer leaves and the successor registers, alone and with 1-3 further notifications / server requests queued on the old stream's lock behind the old handler (stale stream held across the reconnect); sequential reopen chains; free-running reconnect storms with seeded delays at the three points and concurrent senders. Every send made after the new stream's headers were received must succeed and arrive on that stream only. Distinct = (scenario, gap) judged.",
 		[]string{"a schedule that the implementation makes impossible (headers not visible before the table store) is recorded as not realisable, not as a failure", "delivery is awaited up to 5 s on loopback"})
 }
